@@ -82,8 +82,12 @@ func (eng *Engine) verifyFunction(fn *ssa.Function, key string, c *Contract) (re
 		o := ex.addObligation(st, "vacuity", "requires-satisfiable", False, token.NoPos)
 		o.Cover = true
 	}
-	rets := ex.runBody(st)
-	_ = rets
+	if c.CheckOwnership {
+		ex.ownershipObligations(st)
+	}
+	if !c.OwnershipOnly {
+		ex.runBody(st)
+	}
 	res.obls = ex.obls
 	res.abstracted = ex.abstracted
 	for k := range ex.inlined {
